@@ -148,7 +148,7 @@ impl<'a> LazyDbcParser<'a> {
             return Err(Error::OutOfBounds(format!(
                 "Record index out of bounds: {} (max: {})",
                 index,
-                self.header.record_count - 1
+                self.header.record_count.saturating_sub(1)
             )));
         }
 
